@@ -63,7 +63,10 @@ void iobuffer::export_buffer(FILE *fout, bool ispadding)
 {
   if (isfinal)
   {
-    u8_t padding = ispadding ? 0 : b[now - 1][15];
+    u8_t padding = 0;
+    // strip the PKCS#7 padding only if it is a valid one (1..16) and a block was actually processed
+    if (!ispadding && now >= 1 && now <= total && b[now - 1][15] >= 1 && b[now - 1][15] <= 16)
+      padding = b[now - 1][15];
     fwrite(b, 1, (now << 4) - padding, fout);
   }
   else
